@@ -28,7 +28,9 @@ struct Shared {
     eof_at: StdMutex<Option<usize>>,
     bad: StdMutex<Vec<(String, String)>>,
     reads_done: AtomicUsize,
-    peer: StdMutex<Option<std::os::unix::net::UnixStream>>,
+    peer: StdMutex<Option<std::fs::File>>,
+    co: StdMutex<Option<may::coroutine::Coroutine>>,
+    cancel_issued: AtomicBool,
 }
 fn byte(i: usize) -> u8 {
     (i % 251) as u8
@@ -47,11 +49,43 @@ pub fn build(ctl: &'static Ctrl, params: &Value) -> Instance {
     let total: usize = chunks.iter().sum();
     let any_pause = pauses.iter().any(|p| *p > 0);
 
-    let (a, b) = std::os::unix::net::UnixStream::pair().expect("socketpair");
-    let rfd = a.into_raw_fd();
-    let mine = unsafe { may::os::unix::net::UnixStream::from_raw_fd(rfd) };
-    if rto > 0 {
-        mine.set_read_timeout(Some(Duration::from_nanos(rto * UNIT_NS))).unwrap();
+    let transport = params["transport"].as_str().unwrap_or("unix").to_string();
+    // the reader's end is a may stream, the peer's end a plain blocking std socket (as a raw fd, so that
+    // both transports look the same to the writer)
+    let role = params["role"].as_str().unwrap_or("read").to_string();
+    let wtotal = params["write_total"].as_u64().unwrap_or(65536) as usize;
+    let (rfd, mine, b): (i32, Box<dyn ReadEnd + Send>, std::fs::File) = if transport == "tcp" {
+        let l = std::net::TcpListener::bind("127.0.0.1:0").expect("bind");
+        let c = std::net::TcpStream::connect(l.local_addr().unwrap()).expect("connect");
+        let (a, _) = l.accept().expect("accept");
+        c.set_nodelay(true).ok();
+        let rfd = a.into_raw_fd();
+        let m = unsafe { may::net::TcpStream::from_raw_fd(rfd) };
+        if rto > 0 {
+            m.set_read_timeout(Some(Duration::from_nanos(rto * UNIT_NS))).unwrap();
+        }
+        (rfd, Box::new(m), unsafe { std::fs::File::from_raw_fd(c.into_raw_fd()) })
+    } else {
+        let (a, b) = std::os::unix::net::UnixStream::pair().expect("socketpair");
+        let rfd = a.into_raw_fd();
+        let m = unsafe { may::os::unix::net::UnixStream::from_raw_fd(rfd) };
+        if rto > 0 {
+            m.set_read_timeout(Some(Duration::from_nanos(rto * UNIT_NS))).unwrap();
+        }
+        (rfd, Box::new(m), unsafe { std::fs::File::from_raw_fd(b.into_raw_fd()) })
+    };
+    if role == "write" {
+        use std::os::fd::AsRawFd;
+        let small: libc::c_int = 4096;
+        unsafe {
+            // (not for TCP: tiny windows bring the kernel's delayed-ACK / persist timers into play)
+            if transport != "tcp" {
+                libc::setsockopt(rfd, libc::SOL_SOCKET, libc::SO_SNDBUF, &small as *const _ as *const libc::c_void, 4);
+                libc::setsockopt(b.as_raw_fd(), libc::SOL_SOCKET, libc::SO_RCVBUF, &small as *const _ as *const libc::c_void, 4);
+            }
+            let fl = libc::fcntl(b.as_raw_fd(), libc::F_GETFL);
+            libc::fcntl(b.as_raw_fd(), libc::F_SETFL, fl | libc::O_NONBLOCK);
+        }
     }
     let sel_worker = rfd as usize % workers;
     ctl.set_avoid_worker(Some(sel_worker));
@@ -62,6 +96,8 @@ pub fn build(ctl: &'static Ctrl, params: &Value) -> Instance {
         eof_at: StdMutex::new(None),
         bad: StdMutex::new(vec![]),
         reads_done: AtomicUsize::new(0),
+        co: StdMutex::new(None),
+        cancel_issued: AtomicBool::new(false),
         peer: StdMutex::new(if victims.is_empty() { None } else { Some(b.try_clone().unwrap()) }),
     });
     let mut actors = vec![];
@@ -70,9 +106,25 @@ pub fn build(ctl: &'static Ctrl, params: &Value) -> Instance {
         let sh = sh.clone();
         // the reader: an external actor so that it can be pinned to a worker that is not the selector's
         actors.push(external_actor("r"));
+        let role_r = role.clone();
         let body = move || {
             ctl.enroll_co_until_done(0);
+            *sh.co.lock().unwrap() = Some(may::coroutine::current());
             let mut s = mine;
+            if role_r == "write" {
+                // the coroutine under test writes more than the socket buffers hold, then closes
+                may::verif::pt("iox.cowrite", 0, 0, 0);
+                let data: Vec<u8> = (0..wtotal).map(byte).collect();
+                match s.write_all(&data) {
+                    Ok(()) => {
+                        sh.sent.store(wtotal, SeqCst);
+                    }
+                    Err(e) => sh.bad.lock().unwrap().push(("io_error".into(), format!("write failed: {e:?}"))),
+                }
+                sh.closed.store(true, SeqCst);
+                drop(s);
+                return;
+            }
             let mut buf = vec![0u8; buf_size];
             for _ in 0..max_reads {
                 may::verif::pt("iox.read", 0, 0, 0);
@@ -123,6 +175,9 @@ pub fn build(ctl: &'static Ctrl, params: &Value) -> Instance {
     {
         let sh = sh.clone();
         let spawn_reader = spawn_reader.clone();
+        let role_w = role.clone();
+        let transport_w = transport.clone();
+        let peer_chunk = params["peer_chunk"].as_u64().unwrap_or(8192) as usize;
         actors.push(actor("w", any_pause, move || {
             if let Some(f) = spawn_reader.lock().unwrap().take() {
                 // from a plain thread: a spawn from inside a coroutine lands in the local queue of a worker that
@@ -130,6 +185,34 @@ pub fn build(ctl: &'static Ctrl, params: &Value) -> Instance {
                 let _ = std::thread::spawn(f).join();
             }
             let mut s = b;
+            if role_w == "write" {
+                // the peer drains the socket in small non-blocking reads, one per step
+                let mut buf = vec![0u8; peer_chunk];
+                let mut idle = 0usize;
+                let is_tcp = transport_w == "tcp";
+                loop {
+                    may::verif::pt("iox.pread", 0, 0, 0);
+                    match s.read(&mut buf) {
+                        Ok(0) => break,
+                        Ok(n) => {
+                            idle = 0;
+                            sh.got.lock().unwrap().extend_from_slice(&buf[..n]);
+                        }
+                        Err(e) if e.kind() == std::io::ErrorKind::WouldBlock => {
+                            // nothing there yet: give the kernel (and the writer) a moment; the peer never gives up
+                            // while the writer has not closed
+                            idle += 1;
+                            if idle > 2000 {
+                                break;
+                            }
+                            std::thread::sleep(Duration::from_micros(if is_tcp { 300 } else { 20 }));
+                            continue;
+                        }
+                        Err(_) => break,
+                    }
+                }
+                return;
+            }
             let mut off = 0usize;
             for (k, c) in chunks.iter().enumerate() {
                 may::verif::pt("iox.write", 0, k, 0);
@@ -156,20 +239,40 @@ pub fn build(ctl: &'static Ctrl, params: &Value) -> Instance {
         }));
     }
     let opts = ExecOpts {
+        // io.reset / io.try (around the flag reset of the optimistic fast paths) belong to "io" as well
         cats: vec!["iox", "io", "iosub", "sel", "iot"],
         kernel_cats: vec!["iosub"],
         passive_cats: vec![("sel", "sel".to_string()), ("iot", "sel".to_string())],
-        victims: victims.clone(),
+        // the reader is spawned by the scenario: its cancel is a scenario-specific environment action
+        custom_env: if victims.is_empty() { vec![] } else { vec![("cancelr".to_string(), String::new())] },
         vclock: true,
         offer_tick: rto > 0 || any_pause,
         kick_workers: if rto > 0 { vec![sel_worker] } else { vec![] },
+        no_holdback: params["no_holdback"].as_bool().unwrap_or(true),
+        kernel_must_not_outlive: true,
         ..Default::default()
     };
     let sh4 = sh.clone();
+    let sh6 = sh.clone();
     Instance {
         opts,
         actors,
-        custom: Box::new(|_, _| {}),
+        custom: Box::new(move |what, _| {
+            if what == "cancelr" {
+                let t0 = std::time::Instant::now();
+                loop {
+                    if let Some(c) = sh6.co.lock().unwrap().clone() {
+                        sh6.cancel_issued.store(true, SeqCst);
+                        unsafe { c.cancel() };
+                        break;
+                    }
+                    if t0.elapsed() > Duration::from_millis(100) {
+                        break;
+                    }
+                    std::thread::yield_now();
+                }
+            }
+        }),
         unstick: Box::new(|| {}),
         check: Box::new(move |out: &Outcome| {
             ctl.set_avoid_worker(None);
@@ -185,6 +288,7 @@ pub fn build(ctl: &'static Ctrl, params: &Value) -> Instance {
                 }
             }
             let cancelled = !victims.is_empty();
+            let total = if role == "write" { wtotal } else { total };
             match &out.end {
                 End::Finished => {
                     let r_panicked = out.panicked.first().copied().unwrap_or(false);
@@ -192,7 +296,7 @@ pub fn build(ctl: &'static Ctrl, params: &Value) -> Instance {
                         if got.len() != total {
                             v.push(Violation { kind: "stream_truncated".into(), detail: format!("{} of {total} bytes received when the reader finished", got.len()) });
                         }
-                        if close && sh4.eof_at.lock().unwrap().is_none() && sh4.reads_done.load(SeqCst) < max_reads {
+                        if role != "write" && close && sh4.eof_at.lock().unwrap().is_none() && sh4.reads_done.load(SeqCst) < max_reads {
                             v.push(Violation { kind: "no_eof".into(), detail: "the reader finished without seeing the end of the stream".into() });
                         }
                         if r_panicked {
@@ -202,13 +306,17 @@ pub fn build(ctl: &'static Ctrl, params: &Value) -> Instance {
                         // the cancelled reader owned its socket: the peer must see it closed
                         if let Some(mut p) = sh4.peer.lock().unwrap().take() {
                             if got.len() < total || r_panicked {
-                                p.set_nonblocking(true).ok();
+                                unsafe {
+                                    use std::os::fd::AsRawFd;
+                                    let fl = libc::fcntl(p.as_raw_fd(), libc::F_GETFL);
+                                    libc::fcntl(p.as_raw_fd(), libc::F_SETFL, fl | libc::O_NONBLOCK);
+                                }
                                 let mut b = [0u8; 1];
                                 let t0 = std::time::Instant::now();
                                 let mut closed = false;
                                 while t0.elapsed() < Duration::from_millis(200) {
                                     match p.write(&b) {
-                                        Err(e) if e.kind() == std::io::ErrorKind::BrokenPipe => {
+                                        Err(e) if matches!(e.kind(), std::io::ErrorKind::BrokenPipe | std::io::ErrorKind::ConnectionReset) => {
                                             closed = true;
                                             break;
                                         }
@@ -233,7 +341,11 @@ pub fn build(ctl: &'static Ctrl, params: &Value) -> Instance {
                     }
                 }
                 End::Stuck(who) => {
-                    v.push(Violation { kind: "missed_readiness".into(), detail: format!("the reader stays suspended although the peer has written {} bytes (received {}) and closed = {}: {who:?}", sh4.sent.load(SeqCst), got.len(), sh4.closed.load(SeqCst)) });
+                    if role == "write" {
+                        v.push(Violation { kind: "missed_readiness".into(), detail: format!("the writer stays suspended although the peer has drained the socket ({} of {total} bytes received): {who:?}", got.len()) });
+                    } else {
+                        v.push(Violation { kind: "missed_readiness".into(), detail: format!("the reader stays suspended although the peer has written {} bytes (received {}) and closed = {}: {who:?}", sh4.sent.load(SeqCst), got.len(), sh4.closed.load(SeqCst)) });
+                    }
                 }
                 End::Budget => v.push(Violation { kind: "livelock".into(), detail: "step budget exhausted".into() }),
                 End::Tool(_) | End::Aborted => {}
@@ -452,5 +564,7 @@ pub fn build_bulk(_ctl: &'static Ctrl, params: &Value) -> Instance {
         }),
     }
 }
+trait ReadEnd: Read + Write {}
+impl<T: Read + Write> ReadEnd for T {}
 trait ReadWrite: Read + Write {}
 impl<T: Read + Write> ReadWrite for T {}
